@@ -443,6 +443,34 @@ def nthroot_fixed(y, n, prec, exp1):
         prevp = p
     return r
 
+def exact_nthroot(s, n, prec, approx):
+    """
+    Returns the exact nth root of the positive number s if that root
+    is a floating-point number of at most prec bits, given an
+    approximation of the root that is good to about prec bits.
+    Otherwise returns None.
+    """
+    sign, man, exp, bc = s
+    if exp % n:
+        return None
+    # An odd mantissa of k bits has an nth power of n*(k-1)+1 to n*k bits
+    k = (bc + n - 1) // n
+    if k > prec:
+        return None
+    e0 = exp // n
+    asign, aman, aexp, abc = approx
+    shift = aexp - e0
+    if shift >= 0:
+        t = aman << shift
+    else:
+        t = aman >> (-shift)
+    mask = (MPZ_ONE << 64) - 1
+    low = man & mask
+    for c in (t-1, t, t+1, t+2):
+        if c > 0 and pow(c, n, mask+1) == low and c**n == man:
+            return from_man_exp(c, e0)
+    return None
+
 def mpf_nthroot(s, n, prec, rnd=round_fast):
     """nth-root of a positive number
 
@@ -486,7 +514,8 @@ def mpf_nthroot(s, n, prec, rnd=round_fast):
         fn = from_int(n)
         nth = mpf_rdiv_int(1, fn, prec2)
         r = mpf_pow(s, nth, prec2, rnd)
-        s = mpf_pos(r, prec, rnd)
+        # The root of a perfect power is exact in every rounding mode
+        s = exact_nthroot(s, n, prec, r) or mpf_pos(r, prec, rnd)
         if flag_inverse:
             return mpf_div(fone, s, prec-extra_inverse, rnd)
         else:
@@ -521,7 +550,9 @@ def mpf_nthroot(s, n, prec, rnd=round_fast):
         if rnd == 'd' or rnd == 'f':
             rnd_shift = 1
     man = nthroot_fixed(man+rnd_shift, n, prec2, exp1)
-    s = from_man_exp(man, exp1, prec, rnd)
+    # The root of a perfect power is exact in every rounding mode
+    s = exact_nthroot(s, n, prec, from_man_exp(man, exp1)) or \
+        from_man_exp(man, exp1, prec, rnd)
     if flag_inverse:
         return mpf_div(fone, s, prec-extra_inverse, rnd)
     else:
